@@ -446,6 +446,11 @@ func (rr *RRSIG) Verify(k *DNSKEY, rrset []RR) error {
 			return ErrKey
 		}
 
+		// RFC 6605, Section 4: r and s, each of the octet length of the curve
+		if rr.Algorithm == ECDSAP256SHA256 && len(sigbuf) != 64 || rr.Algorithm == ECDSAP384SHA384 && len(sigbuf) != 96 {
+			return ErrSig
+		}
+
 		// Split sigbuf into the r and s coordinates
 		r := new(big.Int).SetBytes(sigbuf[:len(sigbuf)/2])
 		s := new(big.Int).SetBytes(sigbuf[len(sigbuf)/2:])
